@@ -27,6 +27,7 @@ _Str = shell.define("prog", inputs={
     "lrep": shell.arg(type=list[str] | None, argstr="-r...", default=None),
     "multi": shell.arg(type=MultiInputObj[str] | None, argstr="-m", default=None),
     "path": shell.arg(type=Path | None, argstr="-p", default=None),
+    "lreptmpl": shell.arg(type=list[str] | None, argstr="-i {lreptmpl}...", default=None),
 }, name="StrTask")
 
 _EXPECT = {
@@ -38,18 +39,27 @@ _EXPECT = {
     "lrep": lambda s: ["prog", "-r", s, "-r", "b"],
     "multi": lambda s: ["prog", "-m", s, "-m", "b"],
     "path": lambda s: ["prog", "-p", s],
+    "lreptmpl": lambda s: ["prog", "-i", s, "-i", "b", "-i", s],
 }
 
-def _special(s):
-    """shlex/strip-significant characters: whitespace, quotes, backslash"""
-    return any(c.isspace() or c == "'" or c == '"' or c == chr(92) for c in s)
+def _special(s, field="plain"):
+    """the recorded class C23-retokenised: characters shlex treats specially (blank, tab, CR, LF, quotes, backslash) and, for
+    templated argstrs, leading/trailing whitespace of any kind (str.strip)"""
+    if any(c in (" ", chr(9), chr(10), chr(13), "'", '"', chr(92)) for c in s):
+        return True
+    return field in ("tmpl", "lreptmpl") and s != s.strip()
 
-def _bracket(s):
-    """characters that argstr_formatting re-interprets in a templated argstr: format braces and the '[,' ',]' clean-up"""
-    return "{" in s or "}" in s or "[," in s or ",]" in s
+def _bracket(s, field="tmpl"):
+    """the recorded class C23-bracket-cleanup: what argstr_formatting re-interprets in a templated argstr: format braces, the
+    '[,' / ',]' clean-up and (when the template has a blank before the value) a leading ']'"""
+    if "{" in s or "}" in s or "[," in s or ",]" in s:
+        return True
+    return field == "lreptmpl" and s.startswith("]")
 
 def _argv_of(field, s):
-    if field in ("lsp", "lcomma", "lrep", "multi"):
+    if field == "lreptmpl":
+        v = [s, "b", s]
+    elif field in ("lsp", "lcomma", "lrep", "multi"):
         v = [s, "b"]
     elif field == "path":
         v = Path(s)
@@ -72,7 +82,7 @@ def _c23(field, s):
     return None
 '''
 
-FIELDS = ["plain", "bare", "tmpl", "lsp", "lcomma", "lrep", "multi", "path"]
+FIELDS = ["plain", "bare", "tmpl", "lsp", "lcomma", "lrep", "multi", "path", "lreptmpl"]
 
 
 def build(tier, seed, exclude):
@@ -86,15 +96,19 @@ def build(tier, seed, exclude):
         if f == "path":
             pre.append("str(Path(s)) == s")     # Path normalisation ('a//b', 'a/.') is not the shell layer's doing
         if "C23-retokenised" in exclude:
-            pre.append("not _special(s)")
-        if "C23-bracket-cleanup" in exclude and f == "tmpl":
-            pre.append("not _bracket(s)")
+            pre.append(f"not _special(s, {f!r})")
+        if "C23-bracket-cleanup" in exclude and f in ("tmpl", "lreptmpl"):
+            pre.append(f"not _bracket(s, {f!r})")
         g.cond(f"h_{f}", "s: str", pre, f"""
             err = _c23({f!r}, s)
             return T.fail(err) if err else True
         """, timeout=to)
         # steered classes: each decided separately (shell metacharacters, non-ASCII)
         g.cond(f"h_{f}_meta", "s: str", pre + ["any(c in '$*;&|<>(){}~#!?' for c in s)"], f"""
+            err = _c23({f!r}, s)
+            return T.fail(err) if err else True
+        """, timeout=to)
+        g.cond(f"h_{f}_unicode_space", "s: str", pre + ["any(c.isspace() and ord(c) > 127 for c in s)"], f"""
             err = _c23({f!r}, s)
             return T.fail(err) if err else True
         """, timeout=to)
